@@ -80,7 +80,39 @@ def registry(ctx):
     return reg
 
 
+def rule_std_precedence(ctx):
+    """from_json(add_basic_std_types=True) adds the *missing* library types: where the saved net has a type of the same name the
+    saved data must win, i.e. in  dict(A, **B)  / {**A, **B} / A.update(B)  the overriding operand B is the loaded net's own table"""
+    R = "STD-PRECEDENCE"
+    ctx.rule(R, "when the basic standard types are merged into a loaded net, the loaded net's own entries override the library's "
+                "(the later / keyword-splatted operand of the merge is net.std_types[...])")
+    fi = ctx.repo.func("pandapower.file_io:from_json_string")
+    n = 0
+    for node in ast.walk(fi.node):
+        if isinstance(node, ast.Assign) and "std_types" in ast.unparse(node.targets[0]) and isinstance(node.value, ast.Call) \
+                and isinstance(node.value.func, ast.Name) and node.value.func.id == "dict" and node.value.args \
+                and any(k.arg is None for k in node.value.keywords):
+            n += 1
+            over = [k.value for k in node.value.keywords if k.arg is None][-1]
+            base = node.value.args[0]
+            ok = "net.std_types" in ast.unparse(over) and "net.std_types" not in ast.unparse(base)
+            ctx.ob(R, "pandapower.file_io::from_json_string::merge", ok,
+                   "saved standard types override the library defaults" if ok else
+                   f"`{ast.unparse(node.value)}`: the library data overrides a saved type of the same name - a user-modified type is lost on load",
+                   fi.loc(node))
+        if isinstance(node, ast.Assign) and "std_types" in ast.unparse(node.targets[0]) and isinstance(node.value, ast.Dict) \
+                and len(node.value.keys) >= 2 and all(k is None for k in node.value.keys):
+            n += 1
+            ok = "net.std_types" in ast.unparse(node.value.values[-1])
+            ctx.ob(R, "pandapower.file_io::from_json_string::merge", ok,
+                   "saved standard types override the library defaults" if ok else
+                   f"`{ast.unparse(node.value)}`: the library data overrides a saved type of the same name", fi.loc(node))
+    if n < 1:
+        ctx.fail("from_json_string: merge of the basic standard types not found")
+
+
 def run(ctx):
+    rule_std_precedence(ctx)
     ctx.assume("decides agreement of the writer and reader tables (metadata keys, signatures, coding sets), not value equality")
     m = ctx.repo.module(IO)
     reg = registry(ctx)
@@ -226,6 +258,7 @@ def variants(repo):
     fio = "pandapower/file_io.py"
     V = Variant
     return [
+        V("library types override saved types", fio, replace_once("net.std_types[key] = dict(std_types, **net.std_types[key])", "net.std_types[key] = dict(net.std_types[key], **std_types)"), "STD-PRECEDENCE"),
         V("new metadata key not consumed", io, in_function("json_dataframe", replace_once("    d['is_multiindex'] = isinstance(obj.index, pd.MultiIndex)\n", "    d['is_multiindex'] = isinstance(obj.index, pd.MultiIndex)\n    d['n_rows'] = len(obj)\n")), "json_dataframe::n_rows"),
         V("decoder stops popping column_names", io, replace_once("        column_names = self.d.pop('column_names', None)\n", "        column_names = None\n"), "json_dataframe::column_names"),
         V("decrypt guard lost", fio, in_function("from_json_string", replace_once("    if encryption_key is not None:\n        json_string = decrypt_string(json_string, encryption_key)\n", "")), "ENCRYPT-PAIR"),
